@@ -60,6 +60,47 @@ def _cv(t, v):
     return v
 
 
+class CUndefinedBehaviour(Exception):
+    """the compiled module would read or write outside a buffer here (undefined behaviour: garbage, corruption or a crash)"""
+
+
+class _MV:
+    """typed memoryview (`cdef long[:] v = buf`) under the directives in force where it is declared.  Cython adjusts a negative
+    index only under wraparound(True) and checks bounds only under boundscheck(True); with both off `v[-1]` is plain pointer
+    arithmetic in front of the buffer."""
+
+    def __init__(self, buf, ctype, wrap, check):
+        if isinstance(buf, str) or not hasattr(buf, "__getitem__"):
+            raise TypeError("a bytes-like object is required, not '%s'" % type(buf).__name__)
+        self.buf, self.ctype, self.wrap, self.check = buf, ctype, wrap, check
+
+    def _ix(self, i):
+        if not isinstance(i, int):
+            raise Unsupported("memoryview indexed with %r" % (i,))
+        n = len(self.buf)
+        if i < 0 and self.wrap:
+            i += n
+        if not 0 <= i < n:
+            if self.check:
+                raise IndexError("Out of bounds on buffer access (axis 0)")
+            raise CUndefinedBehaviour("memoryview index %d outside the buffer of %d items under boundscheck(False)%s: the compiled "
+                                      "module reads or writes foreign memory" % (i, n, "" if self.wrap else " / wraparound(False)"))
+        return i
+
+    def __getitem__(self, i):
+        return self.buf[self._ix(i)]
+
+    def __setitem__(self, i, v):
+        self.buf[self._ix(i)] = _cv(self.ctype, v)
+
+    def __len__(self):
+        return len(self.buf)
+
+    @property
+    def shape(self):
+        return (len(self.buf),)
+
+
 def _acos(x):
     return math.acos(x) if -1.0 <= x <= 1.0 else math.nan
 
@@ -125,6 +166,14 @@ def transpile(src: str) -> str:
     typed = {}       # typed local names of the current function
     depth_fn = None
     lines = src.split("\n")
+    # compiler directives: file-level defaults from the `# cython:` header, overridden per function by decorators
+    file_dir = {"wraparound": True, "boundscheck": True}
+    for raw in lines:
+        if raw.strip().startswith("# cython:"):
+            for k_, v_ in re.findall(r"(wraparound|boundscheck)\s*=\s*(True|False)", raw):
+                file_dir[k_] = v_ == "True"
+    pending = {}
+    cur_dir = dict(file_dir)
     for raw in lines:
         line, trailing = _code_comment(raw.rstrip())
         if not line.strip():
@@ -132,8 +181,13 @@ def transpile(src: str) -> str:
         s = line.strip()
         ind = line[: len(line) - len(line.lstrip())]
         if s.startswith("# cython:") or s.startswith("cimport ") or (s.startswith("from ") and " cimport " in s) or s.startswith("@cython."):
+            dm = re.match(r"@cython\.(wraparound|boundscheck)\(\s*(True|False)\s*\)\s*$", s)
+            if dm:
+                pending[dm.group(1)] = dm.group(2) == "True"
             out.append(ind + "pass" if ind else "")
             continue
+        if re.match(r"with\s+cython\.", s):
+            raise Unsupported("directive block %r" % s)
         if re.match(r"(cdef|cpdef)\s+(class|struct|enum|extern|union)\b", s) or s.startswith("ctypedef") or "nogil" in s or \
                 re.search(r"\bsizeof\(|&\w|\w\s*\*\s*\w+\s*=|->", s) and s.startswith("cdef"):
             raise Unsupported("construct outside the emulated subset: %r" % s)
@@ -142,6 +196,8 @@ def transpile(src: str) -> str:
         if m and (m.group(2) != "def" or m.group(3) is None):
             ind0, kind, ret, name, args = m.groups()
             typed = {}
+            cur_dir = dict(file_dir, **pending)
+            pending = {}
             alist, names = [], []
             for a in [x.strip() for x in args.split(",") if x.strip()]:
                 am = re.match(r"^(?:(%s)\s+)?(\w+)\s*(=\s*.+)?$" % TYPE_RE, a)
@@ -166,7 +222,8 @@ def transpile(src: str) -> str:
             ind0, t, arr, nm, expr = m.groups()
             if arr is not None:
                 if arr == "[:]":
-                    out.append("%s%s = %s" % (ind0, nm, expr))          # memoryview: alias of the buffer
+                    # memoryview: a view of the buffer, indexed under the directives of the enclosing function
+                    out.append("%s%s = _MV(%s, %r, %r, %r)" % (ind0, nm, expr, t, cur_dir["wraparound"], cur_dir["boundscheck"]))
                 else:
                     out.append("%s%s = list(%s)" % (ind0, nm, expr))    # fixed-size C array initialised from a sequence
                 continue
@@ -222,7 +279,7 @@ def load(path=None):
     src = open(path, encoding="utf-8").read()
     code = transpile(src)
     mod = types.ModuleType("pyModeS.c_common")
-    mod.__dict__.update({"_cv": _cv, "_typed": _typed, "_acos": _acos, "_c_floor": _c_floor, "__file__": path + " (emulated)"})
+    mod.__dict__.update({"_MV": _MV, "_cv": _cv, "_typed": _typed, "_acos": _acos, "_c_floor": _c_floor, "__file__": path + " (emulated)"})
     exec(compile(code, path + ":emulated", "exec"), mod.__dict__)
     missing = [n for n in EXPECTED if not callable(mod.__dict__.get(n))]
     if missing:
